@@ -53,7 +53,8 @@ from typing import Any, Callable, Dict, List, Optional, Sequence, Set, Tuple
 from engines import absdom, pathabs as pa, pyfacts as pf
 from engines.common import AnalysisError, Ctx
 from engines.polysign import ONE, ZERO, Poly
-from engines.absexec import Exec, Op, Undecided, bind_args, refute
+from engines.inline import inline_methods
+from engines.absexec import Exec, Op, Undecided, bind_args, explore, real_points, refute
 
 META = dict(
     category='other',
@@ -121,7 +122,7 @@ def _copier_model(m: pf.Module) -> Callable:
         if attr == 'size' and not e.args and (_is_role(recv, 'srcstat') or (isinstance(recv, Op) and recv.kind == 'formal' and recv.name == 'srcstat')):
             return SIZE
         if attr == 'copy_part_size' and recv is not None:
-            return V('P')
+            return ex.env.get('<copy_part_size>', V('P'))   # the file system's answer: follows the renaming when the size is re-divided
         if name in RETRY and e.args:
             r = invoke(ex, e.args[0], e.args[1:], e.keywords, e)
             if r is not NotImplemented:
@@ -158,7 +159,17 @@ def _copier_model(m: pf.Module) -> Callable:
 
 
 def _pt_text(ex: Exec, pt: Dict[str, int]) -> str:
-    return f'size={ex.inst(SIZE).at(pt)}, part_size={ex.inst(V("P")).at(pt)}'
+    size, P = ex.inst(SIZE).at(pt), ex.inst(V("P")).at(pt)
+    sg = [g for g in ex.gens if g.what == 'size']
+    if not sg and not ex.assumptions and not ex.gens:
+        return f'size={size}, part_size={P}'
+    # the part size was adjusted / re-derived on this path: name the inputs (the file system's copy_part_size, the buffer size if it played a part)
+    txt = f'size={size}, copy_part_size={ex.inst(V("P@" + str(sg[0].k))).at(pt) if sg else P}'
+    if any('B' in g.div.unknowns() for g in ex.gens) or any('B' in a.unknowns() + b.unknowns() for _, a, b, _, _ in ex.assumptions):
+        txt += f', BUFFER_SIZE={ex.inst(V("B")).at(pt)}'
+    if sg:
+        txt += f', part size in force={P}'
+    return txt
 
 
 class _Part:
@@ -238,15 +249,13 @@ def _subst_formals(p: Poly, actuals: Dict[str, Any], names: Sequence[str]) -> Po
     return p.subst(sub)
 
 
-def _run_closure(m: pf.Module, clo: ast.AST, env: Dict[str, Any], sub: Dict[str, Poly], i: Poly, label: str) -> Dict[str, Any]:
+def _run_closure(parent: Exec, clo: ast.AST, env: Dict[str, Any], sub: Dict[str, Poly], i: Poly, label: str) -> Dict[str, Any]:
     params = [a.arg for a in clo.args.args]  # type: ignore[attr-defined]
     if len(params) != 1:
         raise AnalysisError(f'{label}: part function takes {len(params)} parameters')
     e2 = dict(env)
     e2[params[0]] = i
-    ex = Exec(m, clo, e2, sub, label)  # type: ignore[arg-type]
-    ex.call_model = _copier_model(m)
-    ex.divmod_of = (SIZE, V('P'), V('q'), V('rem'))
+    ex = parent.child(clo, e2, sub, label)  # type: ignore[arg-type]
     ex.run()
     inv = [x for x in ex.events if x.kind == 'invoke' and x.method == '_copy_part']
     if len(inv) != 1:
@@ -254,125 +263,255 @@ def _run_closure(m: pf.Module, clo: ast.AST, env: Dict[str, Any], sub: Dict[str,
     return inv[0].actuals
 
 
+def _class_constants(m: pf.Module) -> Dict[str, Poly]:
+    """`Cls.NAME` -> value for the integer class constants of the module (MAX_PARTS = 10_000 ...); BUFFER_SIZE stays the unknown B >= 1."""
+    out: Dict[str, Poly] = {}
+    for c in m.tree.body:
+        if not isinstance(c, ast.ClassDef):
+            continue
+        for st in c.body:
+            tgt = st.targets[0] if isinstance(st, ast.Assign) and len(st.targets) == 1 else (st.target if isinstance(st, ast.AnnAssign) and st.value is not None else None)
+            if not isinstance(tgt, ast.Name):
+                continue
+            try:
+                iv = absdom.eval_interval(st.value, {})  # type: ignore[union-attr]
+            except AnalysisError:
+                continue
+            if iv.lo == iv.hi and float(iv.lo).is_integer():
+                out[f'{c.name}.{tgt.id}'] = Poly.const(int(iv.lo))
+    return out
+
+
+def _untuple_helper_calls(m: pf.Module, cls: str, target: str) -> pf.Module:
+    """`a, b = self.h(..)`  ==>  `_t = self.h(..); a, b = _t` in a copy of the module, so that engines/inline (single targets only) can expand h."""
+    import copy
+    tree = copy.deepcopy(m.tree)
+    m2 = pf.Module(m.rel, m.path, m.src, tree)
+    fn = m2.func(f'{cls}.{target}')
+    n = [0]
+
+    def block(stmts: List[ast.stmt]) -> List[ast.stmt]:
+        out: List[ast.stmt] = []
+        for st in stmts:
+            for fld in ('body', 'orelse', 'finalbody'):
+                b = getattr(st, fld, None)
+                if isinstance(b, list) and b and isinstance(b[0], ast.stmt) and not isinstance(st, (ast.FunctionDef, ast.AsyncFunctionDef, ast.ClassDef)):
+                    setattr(st, fld, block(b))
+            if isinstance(st, ast.Try):
+                for h in st.handlers:
+                    h.body = block(h.body)
+            v = st.value.value if isinstance(st, ast.Assign) and isinstance(st.value, ast.Await) else getattr(st, 'value', None)
+            if isinstance(st, ast.Assign) and len(st.targets) == 1 and isinstance(st.targets[0], (ast.Tuple, ast.List)) and isinstance(v, ast.Call) \
+                    and isinstance(v.func, ast.Attribute) and isinstance(v.func.value, ast.Name) and v.func.value.id == 'self':
+                n[0] += 1
+                tmp = f'_t{n[0]}'
+                first = ast.copy_location(ast.Assign(targets=[ast.Name(id=tmp, ctx=ast.Store())], value=st.value, lineno=st.lineno), st)
+                second = ast.copy_location(ast.Assign(targets=st.targets, value=ast.Name(id=tmp, ctx=ast.Load()), lineno=st.lineno), st)
+                ast.fix_missing_locations(first)
+                ast.fix_missing_locations(second)
+                out += [first, second]
+            else:
+                out.append(st)
+        return out
+    fn.body = block(fn.body)
+    return m2 if n[0] else m
+
+
+def _stale_vars(exi: Exec, env: Dict[str, Any], node: ast.AST) -> List[str]:
+    """Variables the part function reads that still hold a result of a superseded division (their value carries tagged unknowns)."""
+    used = {n.id for n in ast.walk(node) if isinstance(n, ast.Name)}
+    return sorted(nm for nm in used if isinstance(env.get(nm), Poly) and any('@' in u for u in env[nm].unknowns()))
+
+
 def _analyse_main(ctx: Ctx, m: pf.Module, top_env: Dict[str, Any]) -> None:
+    # helpers the part arithmetic may have been extracted into are analysed in place (engines/inline); the copy routines themselves are modelled
+    m, il = inline_methods(_untuple_helper_calls(m, SC, '_copy_file_multi_part_main'), SC, '_copy_file_multi_part_main', exclude=('_copy_file', '_copy_part', '_copy_file_multi_part', 'copy', 'copy_as_file', 'copy_as_dir'))
     fn = _method(m, '_copy_file_multi_part_main')
     q = f'{SC}._copy_file_multi_part_main'
     s_, r_, u_ = V('s_'), V('r_'), V('u_')
     rem_cases = [('rem = 0', {'rem': ZERO, 'P': ONE + s_}), ('rem > 0', {'rem': ONE + r_, 'P': Poly.const(2) + r_ + s_})]
     q_cases = [('q = 0', ZERO), ('q = 1', ONE), ('q >= 2', Poly.const(2) + u_)]
-    part: Optional[_Part] = None
-    file_checked = False
-    n_multi = 0
-    for qd, qsub in q_cases:
-        for rd, rsub in rem_cases:
-            case = f'{qd}, {rd}'
-            cons = f'{F}::{q}::size = q*part_size + rem, {case}'
-            sub = dict(rsub)
-            sub['q'] = qsub
+    all_cases = [(f'{qd}, {rd}', dict(rsub, q=qsub)) for qd, qsub in q_cases for rd, rsub in rem_cases]
+    consts = _class_constants(m)
+    state: Dict[str, Any] = {'part': None, 'file_checked': False, 'n_multi': 0}
+    undecided: List[str] = []
+    for case, csub in all_cases:
+        def make(script: List[Any], case: str = case, csub: Dict[str, Poly] = csub) -> Exec:
             env = dict(top_env)
+            env.update(consts)
             env['Copier.BUFFER_SIZE'] = V('B')
+            env['<copy_part_size>'] = V('P')
+            sub = dict(csub)
+            sub['B'] = ONE + V('b_')
             ex = Exec(m, fn, env, sub, f'{q} [{case}]')
             ex.call_model = _copier_model(m)
             ex.divmod_of = (SIZE, V('P'), V('q'), V('rem'))
-            status = ex.run()
-            live = [x for x in ex.events if not x.alt]
-            singles = [x for x in live if x.kind == 'invoke' and x.method == '_copy_file']
-            gathers = [x for x in live if x.kind == 'gather']
-            wit = {u: 0 for u in ('s_', 'r_', 'u_')}
-            if status not in ('fall', 'return'):
-                raise AnalysisError(f'{q} [{case}]: abstract execution ends by `{status}`')
-            if not singles and not gathers:
-                ctx.bad('R3', f'{F}::{q}::every exit has copied', f'for {_pt_text(ex, wit)} ({case}) the function returns without calling _copy_file and without '
-                        'running the parts: nothing is copied and no error is raised', m.path, fn.lineno)
+            ex.rebase_cases = all_cases
+            ex.keep = {'B', 'b_'}
+            return ex
+        # one run on today's tree; one run per combination of fork answers / re-division cases otherwise (engines/absexec: explore)
+        groups: Dict[str, Dict[str, Any]] = {}
+        try:
+            runs = list(explore(make))
+        except AnalysisError as e:
+            undecided.append(str(e))
+            continue
+        for ex, status in runs:
+            path = '; '.join(d.split(':')[0] if k == 'division' else d for k, d in ex.trace)
+            subcase = '; '.join(d.split(': ', 1)[1] for k, d in ex.trace if k == 'division')
+            glabel = case + (f'; {path}' if path else '')
+            grp = groups.setdefault(glabel, {'problems': [], 'undecided': [], 'facts': None, 'line': fn.lineno})
+            ex.label = f'{q} [{glabel}{" / " + subcase if subcase else ""}]'
+            try:
+                res = _analyse_run(ctx, m, fn, ex, status, glabel, subcase, state)
+            except AnalysisError as e:
+                grp['undecided'].append(str(e))
                 continue
-            ctx.need(len(gathers) <= 1 and len(singles) <= 1, f'{q} [{case}]: {len(singles)} whole-file copies and {len(gathers)} part runs on one path')
-            if singles:
-                _check_single(ctx, m, singles[0], case, file_checked)
-                file_checked = True
-                if not gathers:
-                    ctx.ok('R1', cons, {'path': 'whole file through _copy_file', 'witness': _pt_text(ex, wit)})
-                    continue
-            g = gathers[0]
-            n_multi += 1
-            N = g.N
-            ctx.need(isinstance(N, Poly), f'{q} [{case}]: number of parts is not an integer expression')
-            # who creates the destination
-            mpcs = [x.stream for x in ex.events if x.kind == 'opened' and x.stream.kind == 'mpc']
-            ctx.need(bool(mpcs), f'{q} [{case}]: no multi_part_create on the multi-part path')
-            consm = f'{F}::{q}::multi_part_create(destfile, ..) [{case}]'
-            okm = True
-            for mp in mpcs:
-                if not _is_role(mp.dest, 'destfile'):
-                    okm = False
-                    ctx.bad('R3', consm, f'the part creator is created for {_vt(mp.dest)}, not for the destination file', m.path, g.node.lineno)
-                elif not isinstance(mp.n, Poly):
-                    raise AnalysisError(f'{q} [{case}]: num_parts is not an integer expression')
-            if okm:
-                ctx.ok('R3', consm, {'num_parts': [repr(ex.inst(mp.n)) for mp in mpcs], 'parts_enumerated': repr(ex.inst(N))})
-            consn = f'{F}::{q}::part numbers lie within the announced count [{case}]'
-            range_problems: List[str] = []
-            # the three kinds of part
-            base0 = dict(ex.sub)
-            problems: List[str] = []
-            facts: Dict[str, Any] = {'path': 'multi-part', 'n_parts': repr(ex.inst(N))}
-            for kd, i, nxt, base in _part_kinds(ex, N, f'{q} [{case}]'):
-                exi = Exec(m, fn, {}, base, f'{q} [{case}; {kd}]')
-                act = _run_closure(m, g.closure, g.env, base, i, f'{q}.f [{case}; {kd}]')
-                if part is None:
-                    part = _analyse_copy_part(ctx, m, act)
-                    _check_loop(ctx, m.path, f'{F}::{SC}._copy_part', part.loop, 'R2')
-                if not _plumb_part(ctx, m, act, part, mpcs, case, kd, g, i, exi):
-                    problems.append('argument plumbing')
-                    continue
-                start = _subst_formals(part.start, act, part.int_params)  # type: ignore[arg-type]
-                sz = _subst_formals(part.n0, act, part.int_params)  # type: ignore[arg-type]
-                number = _subst_formals(part.number, act, part.int_params)  # type: ignore[arg-type]
-                guards = [i]
-                # part number inside the announced count
-                for mp in mpcs:
-                    if isinstance(mp.n, Poly) and (exi.decide('>=', number, ZERO) is not True or exi.decide('<', number, mp.n) is not True):
-                        pt = refute(exi, '>=', number, ZERO, guards) or refute(exi, '<', number, mp.n, guards)
-                        if pt is None:
-                            raise Undecided(f'{q} [{case}; {kd}]: cannot place part number {exi.inst(number)!r} in 0..{exi.inst(mp.n)!r}')
-                        range_problems.append(f'{kd}: for {_pt_text(exi, pt)} part index {exi.inst(i).at(pt)} is created as part number {exi.inst(number).at(pt)} while '
-                                              f'multi_part_create was told {exi.inst(mp.n).at(pt)} parts: create_part rejects it (AssertionError), the part is never written')
-                if nxt is None:
-                    want, wtext = SIZE, 'the end of the file'
-                else:
-                    act2 = _run_closure(m, g.closure, g.env, base, nxt, f'{q}.f [{case}; part after {kd}]')
-                    want, wtext = _subst_formals(part.start, act2, part.int_params), 'the start of the next part'  # type: ignore[arg-type]
-                end = start + sz
-                # no gap before what follows; nothing read beyond the end of the source (an overlap inside the file rewrites identical bytes: harmless,
-                # because source offset = destination offset)
-                for op, rhs, rtext, verdict in (('>=', want, wtext, 'those bytes are never copied'),
-                                                ('<=', SIZE, 'the end of the file', 'the part reads beyond the end of the source: UnexpectedEOFError')):
-                    if exi.decide(op, end, rhs) is True:
-                        continue
-                    pt = refute(exi, op, end, rhs, guards)
-                    if pt is None:
-                        raise Undecided(f'{q} [{case}; {kd}]: cannot decide end of part {exi.inst(end)!r} {op} {exi.inst(rhs)!r}')
-                    a, b, c = exi.inst(start).at(pt), exi.inst(end).at(pt), exi.inst(rhs).at(pt)
-                    problems.append(f'{kd}: for {_pt_text(exi, pt)} part {exi.inst(i).at(pt)} of {exi.inst(N).at(pt)} copies bytes [{a}, {b}) but {rtext} is {c}: {verdict}')
-                if exi.decide('>=', start, ZERO) is not True:
-                    raise Undecided(f'{q} [{case}; {kd}]: start offset {exi.inst(start)!r} not known to be non-negative')
-                facts[kd] = {'start': repr(exi.inst(start)), 'size': repr(exi.inst(sz))}
-            # the first part starts at 0
-            ex0 = Exec(m, fn, {}, base0, f'{q} [{case}; first part]')
-            if ex0.decide('>=', N, ONE) is not False and part is not None:
-                act0 = _run_closure(m, g.closure, g.env, base0, ZERO, f'{q}.f [{case}; first part]')
-                s0 = _subst_formals(part.start, act0, part.int_params)  # type: ignore[arg-type]
-                if ex0.decide('==', s0, ZERO) is not True:
-                    pt = refute(ex0, '==', s0, ZERO)
-                    if pt is None:
-                        raise Undecided(f'{q} [{case}]: cannot decide that part 0 starts at offset 0 ({ex0.inst(s0)!r})')
-                    problems.append(f'first part: for {_pt_text(ex0, pt)} part 0 starts at offset {ex0.inst(s0).at(pt)}: the first bytes are never copied')
-            ctx.check(not range_problems, 'R3', consn, '; '.join(range_problems[:2]), m.path, g.node.lineno)
-            if problems:
-                ctx.bad('R1', cons, '; '.join(problems[:3]), m.path, g.node.lineno, extra=problems)
-            else:
-                ctx.ok('R1', cons, facts)
-    ctx.need(n_multi >= 1, f'{q}: no case takes the multi-part path')
+            grp['problems'] += [(f'[{subcase}] ' if subcase else '') + p for p in res['problems']]
+            grp['line'] = res.get('line', grp['line'])
+            grp['undecided'] += res.get('undecided', [])
+            if grp['facts'] is None:
+                grp['facts'] = res['facts']
+        for glabel, grp in groups.items():
+            cons = f'{F}::{q}::size = q*part_size + rem, {glabel}'
+            if grp['problems']:
+                more = len(grp['problems']) - 3
+                ctx.bad('R1', cons, '; '.join(grp['problems'][:3]) + (f' (+{more} more)' if more > 0 else ''), m.path, grp['line'], extra=grp['problems'])
+            elif grp['undecided']:
+                undecided += grp['undecided'][:2]
+            elif grp['facts'] is not None:
+                ctx.ok('R1', cons, grp['facts'])
+    if undecided:
+        raise AnalysisError(' | '.join(undecided[:3]))
+    ctx.need(state['n_multi'] >= 1, f'{q}: no case takes the multi-part path')
     ctx.unit('size_cases', 6)
+
+
+def _real_point(ex: Exec, label: str) -> Dict[str, int]:
+    for pt in real_points(ex, set(ex.inst(SIZE).unknowns()) | set(ex.inst(V('P')).unknowns())):
+        return pt
+    raise Undecided(f'{label}: no input found that takes this path')
+
+
+def _analyse_run(ctx: Ctx, m: pf.Module, fn: pf.FuncDef, ex: Exec, status: str, case: str, subcase: str, state: Dict[str, Any]) -> Dict[str, Any]:
+    """One finished abstract execution of _copy_file_multi_part_main: the whole file through _copy_file, or parts that cover [0, size)."""
+    q = f'{SC}._copy_file_multi_part_main'
+    label = ex.label
+    forked = bool(ex.trace)
+    live = [x for x in ex.events if not x.alt]
+    singles = [x for x in live if x.kind == 'invoke' and x.method == '_copy_file']
+    gathers = [x for x in live if x.kind == 'gather']
+    if status not in ('fall', 'return'):
+        raise AnalysisError(f'{label}: abstract execution ends by `{status}`')
+    if not singles and not gathers:
+        wit = _real_point(ex, label) if forked else {u: 0 for u in ('s_', 'r_', 'u_')}
+        _once(ctx, 'R3', f'{F}::{q}::every exit has copied', False, f'for {_pt_text(ex, wit)} ({case}) the function returns without calling _copy_file and without '
+              'running the parts: nothing is copied and no error is raised', m.path, fn.lineno)
+        return {'problems': [], 'facts': None}
+    ctx.need(len(gathers) <= 1 and len(singles) <= 1, f'{label}: {len(singles)} whole-file copies and {len(gathers)} part runs on one path')
+    if singles:
+        _check_single(ctx, m, singles[0], case, state['file_checked'])
+        state['file_checked'] = True
+        if not gathers:
+            return {'problems': [], 'facts': {'path': 'whole file through _copy_file', 'witness': _pt_text(ex, {u: 0 for u in ('s_', 'r_', 'u_')}) if not forked else case}}
+    g = gathers[0]
+    state['n_multi'] += 1
+    N = g.N
+    ctx.need(isinstance(N, Poly), f'{label}: number of parts is not an integer expression')
+    # who creates the destination
+    mpcs = [x.stream for x in ex.events if x.kind == 'opened' and x.stream.kind == 'mpc']
+    ctx.need(bool(mpcs), f'{label}: no multi_part_create on the multi-part path')
+    consm = f'{F}::{q}::multi_part_create(destfile, ..) [{case}]'
+    okm = True
+    for mp in mpcs:
+        if not _is_role(mp.dest, 'destfile'):
+            okm = False
+            _once(ctx, 'R3', consm, False, f'the part creator is created for {_vt(mp.dest)}, not for the destination file', m.path, g.node.lineno)
+        elif not isinstance(mp.n, Poly):
+            raise AnalysisError(f'{label}: num_parts is not an integer expression')
+    if okm:
+        if forked:
+            _once(ctx, 'R3', consm, True, '', m.path, g.node.lineno)
+        else:
+            ctx.ok('R3', consm, {'num_parts': [repr(ex.inst(mp.n)) for mp in mpcs], 'parts_enumerated': repr(ex.inst(N))})
+    consn = f'{F}::{q}::part numbers lie within the announced count [{case}]'
+    range_problems: List[str] = []
+    # the three kinds of part
+    base0 = dict(ex.sub)
+    problems: List[str] = []
+    und: List[str] = []   # obligations neither proved nor refuted: the run declines unless another obligation is refuted
+    facts: Dict[str, Any] = {'path': 'multi-part', 'n_parts': repr(ex.inst(N))}
+    part: Optional[_Part] = state['part']
+
+    def stale(exi: Exec, *polys: Poly) -> str:
+        names = _stale_vars(exi, g.env, g.closure) + (['the number of parts'] if any('@' in u for u in N.unknowns()) else [])
+        src = next((x.src for x in reversed(ex.gens) if x.what == 'size'), '?')
+        return (f' [{", ".join(f"`{n}`" if " " not in n else n for n in names)} still hold{"s" if len(names) == 1 else ""} a result of the division that `{src}` '
+                'superseded: the part size in force is no longer the divisor it was computed with]') if names else ''
+    for kd, i, nxt, base in _part_kinds(ex, N, label):
+        exi = ex.child(fn, {}, base, f'{label[:-1]}; {kd}]')
+        act = _run_closure(exi, g.closure, g.env, base, i, f'{q}.f [{case}; {kd}]')
+        if part is None:
+            part = state['part'] = _analyse_copy_part(ctx, m, act)
+            _check_loop(ctx, m.path, f'{F}::{SC}._copy_part', part.loop, 'R2')
+        if not _plumb_part(ctx, m, act, part, mpcs, case, kd, g, i, exi):
+            problems.append('argument plumbing')
+            continue
+        start = _subst_formals(part.start, act, part.int_params)  # type: ignore[arg-type]
+        sz = _subst_formals(part.n0, act, part.int_params)  # type: ignore[arg-type]
+        number = _subst_formals(part.number, act, part.int_params)  # type: ignore[arg-type]
+        guards = [i]
+        # part number inside the announced count
+        for mp in mpcs:
+            if isinstance(mp.n, Poly) and (exi.decide('>=', number, ZERO) is not True or exi.decide('<', number, mp.n) is not True):
+                pt = refute(exi, '>=', number, ZERO, guards) or refute(exi, '<', number, mp.n, guards)
+                if pt is None:
+                    und.append(f'{exi.label}: cannot place part number {exi.inst(number)!r} in 0..{exi.inst(mp.n)!r}')
+                    continue
+                range_problems.append(f'{kd}: for {_pt_text(exi, pt)} part index {exi.inst(i).at(pt)} is created as part number {exi.inst(number).at(pt)} while '
+                                      f'multi_part_create was told {exi.inst(mp.n).at(pt)} parts: create_part rejects it (AssertionError), the part is never written'
+                                      + stale(exi, number, mp.n))
+        if nxt is None:
+            want, wtext = SIZE, 'the end of the file'
+        else:
+            act2 = _run_closure(exi, g.closure, g.env, base, nxt, f'{q}.f [{case}; part after {kd}]')
+            want, wtext = _subst_formals(part.start, act2, part.int_params), 'the start of the next part'  # type: ignore[arg-type]
+        end = start + sz
+        # no gap before what follows; nothing read beyond the end of the source (an overlap inside the file rewrites identical bytes: harmless,
+        # because source offset = destination offset)
+        for op, rhs, rtext, verdict in (('>=', want, wtext, 'those bytes are never copied'),
+                                        ('<=', SIZE, 'the end of the file', 'the part reads beyond the end of the source: UnexpectedEOFError')):
+            if exi.decide(op, end, rhs) is True:
+                continue
+            pt = refute(exi, op, end, rhs, guards)
+            if pt is None:
+                und.append(f'{exi.label}: cannot decide end of part {exi.inst(end)!r} {op} {exi.inst(rhs)!r}')
+                continue
+            a, b, c = exi.inst(start).at(pt), exi.inst(end).at(pt), exi.inst(rhs).at(pt)
+            problems.append(f'{kd}: for {_pt_text(exi, pt)} part {exi.inst(i).at(pt)} of {exi.inst(N).at(pt)} copies bytes [{a}, {b}) but {rtext} is {c}: {verdict}'
+                            + stale(exi, end, rhs))
+        if exi.decide('>=', start, ZERO) is not True:
+            und.append(f'{exi.label}: start offset {exi.inst(start)!r} not known to be non-negative')
+        facts[kd] = {'start': repr(exi.inst(start)), 'size': repr(exi.inst(sz))}
+    # the first part starts at 0
+    ex0 = ex.child(fn, {}, base0, f'{label[:-1]}; first part]')
+    if ex0.decide('>=', N, ONE) is not False and part is not None:
+        act0 = _run_closure(ex0, g.closure, g.env, base0, ZERO, f'{q}.f [{case}; first part]')
+        s0 = _subst_formals(part.start, act0, part.int_params)  # type: ignore[arg-type]
+        if ex0.decide('==', s0, ZERO) is not True:
+            pt = refute(ex0, '==', s0, ZERO)
+            if pt is None:
+                und.append(f'{ex0.label}: cannot decide that part 0 starts at offset 0 ({ex0.inst(s0)!r})')
+            else:
+                problems.append(f'first part: for {_pt_text(ex0, pt)} part 0 starts at offset {ex0.inst(s0).at(pt)}: the first bytes are never copied')
+    if forked:
+        if range_problems:
+            _once(ctx, 'R3', consn, False, (f'[{subcase}] ' if subcase else '') + '; '.join(range_problems[:2]), m.path, g.node.lineno)
+        else:
+            _once(ctx, 'R3', consn, True, '', m.path, g.node.lineno)
+    else:
+        ctx.check(not range_problems, 'R3', consn, '; '.join(range_problems[:2]), m.path, g.node.lineno)
+    return {'problems': problems, 'facts': facts, 'line': g.node.lineno, 'undecided': und}
 
 
 def _part_kinds(ex: Exec, N: Poly, label: str) -> List[Tuple[str, Poly, Optional[Poly], Dict[str, Poly]]]:
@@ -385,6 +524,12 @@ def _part_kinds(ex: Exec, N: Poly, label: str) -> List[Tuple[str, Poly, Optional
         if not 0 <= k <= 4:
             raise Undecided(f'{label}: constant number of parts {k} outside the analysed range')
         return [(f'part {j} of {k}', Poly.const(j), Poly.const(j + 1) if j + 1 < k else None, base) for j in range(k)]
+    if any('@' in u or u.startswith(('dq', 'dr')) for u in n.unknowns()):
+        # the part count is not a quantity of the decomposition in force (a result of a superseded division, an opaque quotient): nothing
+        # orders it against q, so the kinds of part are described relative to it and every obligation is left to a realisable refutation
+        c_ = V('c_')
+        return [('last part', N - ONE, None, base), ('next-to-last part', N - Poly.const(2), N - ONE, base),
+                ('an earlier part', N - Poly.const(3) - c_, N - Poly.const(2) - c_, base)]
     if not (set(n.t) <= {(), ('u_',)} and n.t.get(('u_',)) == 1):
         raise Undecided(f'{label}: number of parts {n!r} is not of the form k + u')
     k0 = n.const_value()
